@@ -40,6 +40,7 @@ func build(expr logql.Expr, sel SampleSelector, params EvalParams) (_ StepIterat
 			end    = params.End
 		)
 		if o := qrange.Offset; o != nil {
+			// NOTE: RangeAggregation reports steps at their original time.
 			start = start.Add(-o.Duration)
 			end = end.Add(-o.Duration)
 		}
